@@ -8,7 +8,7 @@ import (
 	redact "github.com/cockroachdb/redact"
 )
 
-var alphaC07 = []string{"a", mStart, mEnd, mCross, "\n", "\xe2", "\x80", "\xb9", "\ufffd", "é", "\U0001F600", "\xba"}
+var alphaC07 = []string{"a", mStart, mEnd, mCross, "\n", "\xe2", "\x80", "\xb9", "\ufffd", "é", "\U0001F600", "\xba", "\u2038", "\u203b"}
 var alphaWFtok = []string{"a", mCross, "\n", "?", mStart, mEnd, "\ufffd", "é"}
 
 func init() {
